@@ -175,6 +175,7 @@ def tnet_from( conn, addr,
         while not ( eof or ( control and control.get( 'done' ))):
             while ignore and source.peek() and source.peek() in ignore:
                 next( source )
+            begun		= source.sent		# No symbols of the next TNET string consumed yet
             data		= cpppo.dotdict()
             started		= cpppo.timer()		# When did we start the current attempt at a TNET string?
             for mch,sta in engine.run( source=source, data=data ):
@@ -192,6 +193,9 @@ def tnet_from( conn, addr,
                               engine.name_centered(), duration, source.sent,
                               remains if remains is None else ( "%7.3fs" % remains ))
                     msg		= network.recv( conn, timeout=remains )
+                    if msg and ignore and source.sent == begun:
+                        # Still between TNET strings; symbols to ignore may also lead a later segment
+                        msg	= msg.lstrip( ignore ) or None
                     duration	= cpppo.timer() - started
                     if msg is None and timeout is not None and duration >= timeout:
                         # No data w/in given timeout expiry!  Inform the consumer, and then try again w/ fresh timeout.
